@@ -343,7 +343,15 @@ impl<S: WebSocket, T: TimestampProvider> Task<S, T> {
             }
         }
         // This will flush the remaining frames already queued for sending as well
-        poll_fn(|cx| self.ws.lock().poll_close_unpin(cx)).await.ok();
+        if connection_broken {
+            // The peer may be gone for good (keepalive timeout, transport error) with our send
+            // buffer full: the `Sink` would then stay `Pending` forever. Try once and move on,
+            // so that our streams and callers get to see the end of the connection.
+            poll_fn(|cx| self.ws.lock().poll_close_unpin(cx))
+                .now_or_never();
+        } else {
+            poll_fn(|cx| self.ws.lock().poll_close_unpin(cx)).await.ok();
+        }
         // The above line only closes the `Sink`. Before we terminate connections,
         // we dispatch the remaining frames in the `Source` to our streams.
         if connection_broken {
